@@ -1,10 +1,13 @@
 """C09 — a stylesheet stays structurally valid under any sequence of DOM edits.
 
-model: lean/CssVerif/Model/SheetEdit.lean (+ generated kind tables Gen/C09RuleKinds.lean); theorems: Props/C09.lean
+model: lean/CssVerif/Model/SheetEdit.lean (+ generated kind tables Gen/C09RuleKinds.lean), Model/SheetBlocks.lean (declaration
+blocks and properties as heap objects), Model/SheetRaw.lean (edits around the DOM methods); theorems: Props/C09.lean
 correspondence: edit histories on a CSSStyleSheet and on the rule lists of its @media/@page rules, run on the real
 objects and on the model (drv_c09) in lock step; after EVERY operation both sides print: outcome class (returned index /
 None / exception class), sheet.encoding, the namespaces dict, the tree of rule types with the raw back pointers
-(_parentStyleSheet, _parentRule) of every rule, and the same for every rule object that is no longer in the tree.
+(_parentStyleSheet, _parentRule) of every rule, the declaration block of every rule that has one with its raw _parentRule and
+the name and raw _parent of each property, the same for every rule object that is no longer in the tree, and the replaced
+blocks / loose properties seen so far.
 oracle (implementation only, independent tables): order ranks, @charset position, kinds allowed in nested lists, parent
 links of rules / declaration blocks / properties through the public API, removed objects name no parent, returned index,
 and serialise + reparse keeps every rule.
@@ -37,10 +40,20 @@ class C09(Check):
         'a rule object is abstracted to kind, prefix/URI, encoding, used namespace URIs, nested list and the two raw '
         'back pointers; that parsing the serialisation of a well-formed rule gives a rule of the same kind and '
         'parameters is C03, here exercised by the reparse oracle only',
+        'hand-written heap model lean/CssVerif/Model/SheetBlocks.lean of declaration blocks and properties as objects '
+        '(_setStyle of the four rule classes, CSSStyleDeclaration._setCssText / setProperty / removeProperty / item '
+        'assignment, the block replacement of CSSPageRule._setCssText) and lean/CssVerif/Model/SheetRaw.lean of raw list '
+        'edits and re-insertion, tied by the same lock-step dumps (block of every rule, raw _parentRule / _parent, replaced '
+        'blocks, loose properties); that a fresh rule object comes with a block naming it is an assumption of the model '
+        'checked on every dump',
     )
     assumptions = (
-        'each history uses fresh rule objects (an object is inserted at most once; re-inserting a contained object is '
-        'not modelled)',
+        'the theorems about all operations (step_valid, dstep_valid) assume fresh objects and edits through the DOM '
+        'methods (OpOK / DOpOK); a contained block / property / rule handed in again and raw edits of the list object '
+        'are modelled as separate operations with witness theorems and are listed known findings; a history ends after '
+        'a raw list insert or a re-insertion (see docs/C09.md, limits of the model)',
+        'property names of the block operations come from a pool of four; the declarations rules are generated with '
+        'have other names and are shown as one anonymous property',
         'codecs.lookup decides which encoding names are valid (passed to the model as a flag)',
         'serialisation for the reparse check runs with ser.prefs.resolveVariables = False (otherwise @variables rules '
         'are not written at all) and keeps comments; defaults are restored afterwards',
@@ -49,7 +62,10 @@ class C09(Check):
             'deleteRule at every index} x 10 rule kinds from the empty sheet, + every ordered sheet x ordered add, + '
             'CSSRuleList arguments (allowed and forbidden kinds, sheet / @media / @page), + boundary indexes, + random walks (length '
             '60) over all operations incl. text replace, encoding, namespaces[p]=u / del, string and object arguments, '
-            'nested @media/@page lists to depth 3, raise and log-only mode. non-trivial = distinct (history prefix, '
+            'nested @media/@page lists to depth 3, raise and log-only mode, + ALL sequences of length <= 2 / 3 over 27 '
+            'operations on the declaration block of a style rule in both modes, every block operation on every kind of '
+            'rule with a style at every depth followed by the removal of the rule, shared blocks / properties, raw list '
+            'edits followed by legitimate operations, re-insertion of every rule at several indexes. non-trivial = distinct (history prefix, '
             'operation) whose operation is not an append to an empty sheet')
 
     def translate(self, ctx):
@@ -60,7 +76,7 @@ class C09(Check):
     def run(self, ctx):
         env = ops_mod.Env(ctx)
         try:
-            for phase in (self.corpus, self.exhaustive, self.on_valid_sheets, self.boundary, self.random_walks):
+            for phase in (self.corpus, self.exhaustive, self.on_valid_sheets, self.boundary, self.blocks, self.around, self.random_walks):
                 ctx.phase(phase, ctx, env)
             ctx.phase(env.flush)
         finally:
@@ -78,7 +94,7 @@ class C09(Check):
 
     def exhaustive(self, ctx, env):
         depth = ctx.n(2, 3)
-        sample3 = ctx.n(1500, 0)
+        sample3 = ctx.n(900, 0)
         rng = ctx.sub_rng('exh')
         count = [0]
 
@@ -113,6 +129,8 @@ class C09(Check):
         alph = ['charset', 'import', 'namespace', 'variables', 'style', 'comment', 'unknown']
         rank = {'charset': 0, 'import': 1, 'namespace': 2, 'variables': 3, 'style': 4}
         rng = ctx.sub_rng('valid-sheets')
+        half = ctx.sub_rng('valid-sheets-ins')   # quick tier: insertRule at every index into the longest sheets for the
+        # kinds with a position scan, and for a sample of the others (all of them in the thorough tier)
 
         def valid(seq):
             last = -1
@@ -139,11 +157,14 @@ class C09(Check):
                     s = ops_mod.basic_spec(k)
                     env.history([base, ('add', s, 0)], kind='valid-sheet-add')
                     count += 1
-                    if n <= full:
+                    if n <= full and (n < full or ctx.tier_counts != 'quick' or k in ('namespace', 'variables', 'import', 'charset')
+                                      or half.random() < 0.4):
                         for i in range(n + 1):
-                            env.history([base, ('ins', s, i, 0)], kind='valid-sheet-ins')
+                            # (quick tier: the serialise + reparse oracle on a third of these; all of them have it after `add`)
+                            rp = ctx.tier_counts != 'quick' or half.random() < 0.33
+                            env.history([base, ('ins', s, i, 0)], kind='valid-sheet-ins', reparse=rp)
                             if k in ('namespace', 'variables', 'import', 'charset'):
-                                env.history([base, ('insord', s, i, 0)], kind='valid-sheet-insord')
+                                env.history([base, ('insord', s, i, 0)], kind='valid-sheet-insord', reparse=rp)
                             count += 1
         ctx.notes['valid_sheet_histories'] = count
 
@@ -151,6 +172,82 @@ class C09(Check):
         for h in ops_mod.boundary_histories():
             for raising in (True, False):
                 env.history(h, raising=raising, kind='boundary')
+
+    def blocks(self, ctx, env):
+        """declaration blocks and properties as objects: ALL sequences of length <= 2 (quick) / 3 (thorough) over the
+        operations on the block of one style rule, both modes; every operation on every kind of rule with a style at
+        every depth, followed by operations that remove the rule (its block stays with it)"""
+        S = Spec
+        mar = S('margin', pre='@top-left')
+        base = ('text', [S('style'), S('media', kids=[S('style'), S('page', kids=[mar])]), S('fontface'), S('page', kids=[mar])])
+        paths = [(0,), (1, 0), (1, 1), (1, 1, 0), (2,), (3,), (3, 0)]
+        good, mixed, bad = [('top', 1), ('color', 1)], [('top', 0), ('color', 1)], [('right', 0)]
+
+        def alphabet(p, full=True):
+            forms = (0, 1) if p in ((1, 1), (3,)) else (0, 1, 2)         # the text of an @page rule is a rule-list operation
+            a = [('dnew', p, it, f) for f in forms for it in ((good, mixed, bad, []) if full else (good, mixed))]
+            a += [('dtext', p, it) for it in (good, mixed, bad, [])]
+            a += [('dset', p, 'top', 1, 0, 1), ('dset', p, 'top', 1, 0, 0), ('dset', p, 'top', 0, 0, 1), ('dset', p, 'top', 1, 1, 1),
+                  ('dset', p, 'right', 1, 0, 1), ('dset', p, 'color', 1, 1, 0), ('dsetobj', p, 'top'), ('dsetobj', p, 'right'),
+                  ('ddel', p, 'top'), ('ddel', p, 'color'), ('dshare', p, p)]
+            return a
+        depth = ctx.n(2, 3)
+        count = 0
+        small = alphabet((0,), full=False)
+        for n in range(1, depth + 1):
+            for seq in itertools.product(alphabet((0,)) if n < 3 else small, repeat=n):
+                for raising in (True, False):
+                    env.history([base] + list(seq), raising=raising, kind='blocks-exhaustive-%d' % n)
+                    count += 1
+        removers = {(0,): [('del', 0)], (1, 0): [('ndel', (1,), 0)], (1, 1): [('ntext', (1,), [S('style')])],
+                    (1, 1, 0): [('ndel', (1, 1), 0)], (2,): [('text', [])], (3,): [('del', -1)], (3, 0): [('ntext', (3,), [])]}
+        for p in paths:
+            for op in alphabet(p):
+                for raising in (True, False):
+                    env.history([base, op, ('dset', p, 'color', 1, 0, 1)] + removers[p] + [('add', S('style'), 0)],
+                                raising=raising, kind='blocks-boundary')
+                    count += 1
+        # a contained object handed in a second time (known findings): the model mirrors the aliasing
+        for a, b in ((0,), (2,)), ((1, 0), (0,)), ((3, 0), (1, 1, 0)), ((0,), (0,)):
+            for raising in (True, False):
+                env.history([base, ('dset', b, 'top', 1, 0, 1), ('dshare', a, b), ('dset', a, 'color', 1, 0, 1), ('dnew', a, good, 1),
+                             ('dnew', b, good, 0)], raising=raising, kind='blocks-shared')
+                env.history([base, ('dshare', a, b), ('dnew', b, good, 0), ('ddel', a, 'top')], raising=raising, kind='blocks-shared')
+                env.history([base, ('dset', b, 'top', 1, 0, 1), ('dshareprop', a, b, 1), ('dshareprop', a, b, 1), ('ddel', b, 'top'),
+                             ('dtext', a, good)], raising=raising, kind='blocks-shared')
+                env.history([base, ('dset', b, 'top', 1, 0, 1), ('dshareprop', a, b, 1), ('ddel', a, 'top'), ('dtext', b, [])],
+                            raising=raising, kind='blocks-shared')
+                count += 4
+        ctx.notes['block_histories'] = count
+
+    def around(self, ctx, env):
+        """edits that go around the DOM methods (known findings C09-raw-list-edit, C09-rule-reinserted): the model
+        (Model/SheetRaw.lean) mirrors them; legitimate operations follow the raw edits"""
+        S = Spec
+        mar = S('margin', pre='@top-left')
+        base = ('text', [S('import'), S('style'), S('media', kids=[S('style'), S('comment'), S('page', kids=[mar])]), S('fontface')])
+        tail = [('add', S('style'), 0), ('add', S('import'), 0), ('del', 0), ('text', [S('style')])]
+        count = 0
+        for raising in (True, False):
+            for i in range(-4, 4):
+                env.history([base, ('rawdel', (), i)] + tail, raising=raising, kind='around-rawdel')
+                count += 1
+            for p, m in (((2,), 3), ((2, 2), 1)):
+                for i in range(-m, m):
+                    env.history([base, ('rawdel', p, i), ('nins', p, S('style') if len(p) == 1 else mar, None, 0), ('ndel', p, 0),
+                                 ('del', 2)], raising=raising, kind='around-rawdel')
+                    count += 1
+            for k in ('style', 'import', 'charset', 'comment', 'variables', 'fontface', 'unknown'):
+                for i in (-6, -1, 0, 1, 4, 9):
+                    env.history([base, ('rawins', ops_mod.basic_spec(k), i)] + tail, raising=raising, kind='around-rawins')
+                    count += 1
+            for p in ((0,), (1,), (3,), (2, 0), (2, 1), (2, 2, 0)):
+                for i in (None, 0, 1, 2, 4, 7):
+                    env.history([base, ('reins', p, i)], raising=raising, kind='around-reinsert')
+                    env.history([base, ('del', 0), ('reins', p if p[0] < 1 else (p[0] - 1,) + p[1:], i)], raising=raising,
+                                kind='around-reinsert')
+                    count += 2
+        ctx.notes['around_histories'] = count
 
     def random_walks(self, ctx, env):
         rng = ctx.sub_rng('walks')
